@@ -124,10 +124,37 @@ def install_seams(seed):
     cs.datetime = shim
     rl.datetime = shim
     sb.sleep = clock.sleep
+    _deterministic_identity_hash()
     import numpy as np
     np.random.seed(seed & 0x7FFFFFFF)
     random.seed(seed)
     return ids, clock
+
+
+_ORD = [0]
+
+
+def _deterministic_identity_hash():
+    """Memento function objects hash by address, and the library iterates sets of them
+    (e.g. in _validate_dependency): the iteration order - hence the sequence of yield points and
+    version computations - would depend on the heap layout of the worker.  Replace the identity
+    hash by the ordinal of first use (equality stays identity)."""
+    from twosigma.memento.types import MementoFunctionType
+
+    def __hash__(self):
+        d = self.__dict__
+        h = d.get("_vsim_ord")
+        if h is None:
+            _ORD[0] += 1
+            h = d["_vsim_ord"] = _ORD[0]
+        return h
+
+    MementoFunctionType.__hash__ = __hash__
+    for sub in list(MementoFunctionType.__subclasses__()):
+        for c in [sub] + list(sub.__subclasses__()):
+            if "__hash__" in c.__dict__ and c.__dict__["__hash__"] is None:
+                pass
+            c.__hash__ = __hash__
 
 
 # ------------------------------------------------------------------ environment
